@@ -313,6 +313,8 @@ class Printer(object):
         if op in ('==', '!=') and e.args[0].ty == BOOL and e.args[1].ty == BOOL:
             # compare truth values, not representations (a nondet _Bool need not be canonical)
             return '((!!%s) %s (!!%s))' % (self.p(e.args[0]), op, self.p(e.args[1]))
+        if op in ('|', '&', '^', '<<', '>>'):
+            return '(%s %s %s)' % (self.p(e.args[0]), op, self.p(e.args[1]))
         if op in ('+', '-', '*', '/', '%', '<', '<=', '>', '>=', '==', '!=', '&&', '||'):
             return '(%s %s %s)' % (self.p(e.args[0]), op, self.p(e.args[1]))
         raise ValueError('cannot print op %r' % op)
@@ -343,7 +345,19 @@ def subst(e, mapping):
     return rebuild(e.op, args, e.ty)
 
 
+def mk_bitop(op, a, b):
+    a, b = E.const(a), E.const(b)
+    if a.op == 'const' and b.op == 'const':
+        x, y = int(a.args[0]), int(b.args[0])
+        return E.const({'|': x | y, '&': x & y, '^': x ^ y, '<<': x << y, '>>': x >> y}[op])
+    if op == '<<' and b.op == 'const' and int(b.args[0]) == 0:
+        return a
+    return E(op, (a, b), INT)
+
+
 def rebuild(op, args, ty):
+    if op in ('|', '&', '^', '<<', '>>'):
+        return mk_bitop(op, args[0], args[1])
     if op in ('+', '-', '*', '/', '%'):
         return mk_arith(op, args[0], args[1])
     if op in _CMP:
